@@ -187,6 +187,23 @@ def run(chk):
                 chk.violation('correspondence Base/Enum.v vs common/base.py broke on "%s": model %s, implementation %s%s' % (
                     l[:200], m, i, ('; ' + f) if f else ''), {'cmd': l, 'model': m, 'impl': i, 'correspondence': 'Run.run_line'},
                     key, bool(f))
+        # code lists inside messages: client hellos encoded by the specification with known, unknown and GREASE codes in the
+        # cipher suite, compression method, extension type and named group lists; the codes recovered by the implementation's
+        # parser must be the encoded ones, in order, none dropped (the signalling suites excepted, which become flags)
+        from harness import tlsgen
+        hello = []
+        for _ in range(60 if chk.tier == 'quick' else 1500):
+            l, _cmds = tlsgen.client_hello(chk.rng, impl, scsv_at_end=chk.rng.random() < 0.5)
+            hello.append(l)
+        enc = common.run_model(hello)
+        dec = ['chdec ' + m[3:] for m in enc if m.startswith('OK ')]
+        for l, m in zip(dec, common.run_model(dec)):
+            i = impl.impl_line(l)
+            if m != i and nv < 8:
+                nv += 1
+                chk.violation('the code lists recovered from a client hello differ from the encoded ones: implementation %s, specification %s' % (i[:160], m[:160]),
+                              {'cmd': l, 'impl': i, 'spec': m, 'kind': 'hello'}, None, True)
+        chk.coverage['hello_code_lists'] = len(dec)
     else:
         chk.violation('model runner does not build: %s' % br.failed_file, {'error': br.error}, None, False)
     chk.coverage['evaluations'] = len(lines)
@@ -217,6 +234,11 @@ def replay(path):
         hits = [x for x in alias_failures() if x[0] == r['enum'] and x[3] == r['code']]
         print('aliases now: %s' % hits)
         ok = not hits
+    elif r.get('kind') == 'hello':
+        o = impl.impl_line(r['cmd'])
+        spec = common.run_model([r['cmd']])[0] if common.build_runner().ok else r.get('spec')
+        print('%s\n implementation: %s\n specification:  %s' % (r['cmd'][:120], o[:300], spec[:300]))
+        ok = o == spec
     elif 'cmd' in r:
         o = impl.impl_line(r['cmd'])
         f = predicate(impl, r['cmd'], o)
